@@ -238,7 +238,12 @@ class Scenario:
         if t not in self.open:
             return None
         args = [G.gen_value(rng, 1, 0.2) for _ in range(rng.randint(0, 3))]
-        return self._frames(t, pycodec.encode(3, ns, i, args))
+        frames = pycodec.encode(3, ns, i, args)
+        if len(frames) == 1 and self.profile.get('burst_acks') and rng.random() < 0.3:
+            # the same acknowledgement twice at the same time (two concurrent requests of one client)
+            f = {'op': 'frame', 't': t, 'text': frames[0]}
+            return {'op': 'burst', 'frames': [f, dict(f)]}
+        return self._frames(t, frames)
 
     def _target(self, ns):
         rng = self.rng
